@@ -1,3 +1,4 @@
+import errno
 import os
 import shutil
 import stat
@@ -115,7 +116,17 @@ class RealIsStickyDir(IsStickyDir, RealHasStickyBit):
 
 class RealIsSymLink(IsSymLink):
     def is_symlink(self, path):  # type: (str) -> bool
-        return os.path.islink(path)
+        return lstat_says_symlink(path)
+
+
+def lstat_says_symlink(path):  # type: (str) -> bool
+    # unlike os.path.islink() does not turn "could not find out" into "no"
+    try:
+        return stat.S_ISLNK(os.lstat(path).st_mode)
+    except OSError as e:
+        if e.errno in (errno.ENOENT, errno.ENOTDIR):
+            return False
+        raise
 
 
 class RealContentsOf(ContentsOf):
